@@ -30,6 +30,7 @@ REGISTRY = {
     "C11": ("auverif.props.c11", "run"),
     "C19": ("auverif.props.c19", "run"),
     "C14": ("auverif.props.c14", "run"),
+    "C15": ("auverif.props.c15", "run"),
 }
 
 
